@@ -98,7 +98,14 @@ fn engine_fine(terms: &[Term], checks: u32, tier: Tier, kernels: &[&str]) -> Vec
                         let mut c4 = par(case(src, 8, ch, *t), 4, cs);
                         c4.known = known;
                         c4.pmask = 0xFF;
-                        out.push(item(c4, Plan::db(if th { 7 } else { 6 }), checks));
+                        // full-visit terminals take many more steps: the same budget buys fewer delays there
+                        let d = match (t.is_short_circuit(), th) {
+                            (true, false) => 6,
+                            (true, true) => 7,
+                            (false, false) => 3,
+                            (false, true) => 4,
+                        };
+                        out.push(item(c4, Plan::db(d), checks));
                     }
                 }
                 // closure granularity on a wrapped Vec
@@ -137,14 +144,20 @@ fn engine_big(terms: &[Term], checks: u32, tier: Tier, kernels: &[&str]) -> Vec<
             }
             for t in terms {
                 for n in ns {
-                    for (nt, cs) in [
+                    for (pi, (nt, cs)) in [
                         (NtSet::Keep, CsSet::Keep),
-                        (NtSet::Max(4), CsSet::Keep),
-                        (NtSet::Keep, CsSet::N(64)),
                         (NtSet::Max(8), CsSet::Min(16)),
                         (NtSet::Max(3), CsSet::N(1000)),
                         (NtSet::Max(7), CsSet::N(7)),
-                    ] {
+                        (NtSet::Max(4), CsSet::Keep),
+                        (NtSet::Keep, CsSet::N(64)),
+                    ]
+                    .into_iter()
+                    .enumerate()
+                    {
+                        if !th && pi >= 4 {
+                            continue;
+                        }
                         let mut c = case(src, 0, ch, *t);
                         c.input = (0..*n).map(|i| i as u8).collect();
                         c.known = known;
@@ -1454,7 +1467,7 @@ pub fn items(prop: &str, tier: Tier) -> Vec<Item> {
             let ck = CK_RESULT | CK_VS_SEQ;
             out.push(Item { case: case(Src::SVec, 0, "", Term::Build), plan: Plan::base_np(), checks: CK_FN_SWEEP });
             // sampled large lengths (300 .. 5000) with Auto / large / odd chunk sizes and up to 16 threads
-            out.extend(engine_big(&[Term::CollectVec, Term::CollectX, Term::Count, Term::Reduce, Term::Find, Term::IntoVec], ck, tier, &["", "M", "MF", "OF", "XF"]));
+            out.extend(engine_big(&[Term::CollectVec, Term::Count, Term::Find], ck, tier, if th { &["", "M", "MF", "OF", "XF"] } else { &["M", "MF", "XF"] }));
             let terms = [Term::CollectVec, Term::Collect, Term::CollectX, Term::IntoVec, Term::Count, Term::Reduce, Term::Find, Term::First, Term::ForEach, Term::Any];
             let ns: Vec<usize> = if th { vec![0, 1, 2, 3, 4, 5, 6, 7, 8, 33, 100] } else { vec![0, 1, 2, 3, 5, 8, 33] };
             let ws = [NtSet::Keep, NtSet::N(1), NtSet::N(2), NtSet::N(3), NtSet::N(5), NtSet::N(8), NtSet::Max(64)];
